@@ -237,3 +237,13 @@ func (g *Gen) Next() Call {
 		return Call{"lstat", []string{enc(g.pickExisting())}}
 	}
 }
+
+// SyncShadow copies another generator's idea of which names exist (once).
+func (g *Gen) SyncShadow(o *Gen) {
+	if len(g.dirs) > 1 || len(g.files) > 0 {
+		return
+	}
+	g.dirs = append([]string{}, o.dirs...)
+	g.files = append([]string{}, o.files...)
+	g.nextH = o.nextH + 100
+}
